@@ -145,8 +145,28 @@ def run_case(case):
     T, keys, w, sizes = make_dist(rng)
     jdd = dict(zip(keys, w))
     carrier = rng.choice(["manual", "manual", "empirical"])
+    # the distribution is "a mapping from joint degree to weight": a dict, or any other Mapping a caller may hold
+    mform = rng.choice(["dict", "dict", "dict", "OrderedDict", "defaultdict", "MappingProxyType", "ChainMap", "UserDict"])
+
+    def as_mapping(d):
+        import collections
+        import types
+        if mform == "OrderedDict":
+            return collections.OrderedDict(d)
+        if mform == "defaultdict":
+            return collections.defaultdict(float, d)
+        if mform == "MappingProxyType":
+            return types.MappingProxyType(dict(d))
+        if mform == "ChainMap":
+            return collections.ChainMap(dict(d))
+        if mform == "UserDict":
+            return collections.UserDict(d)
+        return dict(d)
     if carrier == "manual":
-        L = sut("JointDegreeManual", gcmpy.JointDegreeManual, {N_.JDD: dict(jdd), N_.MOTIF_SIZES: list(sizes)})
+        if mform != "dict":
+            res.count("distributions_given_as_another_mapping_type")
+            res.seen("mapping_types", mform)
+        L = sut("JointDegreeManual", gcmpy.JointDegreeManual, {N_.JDD: as_mapping(jdd), N_.MOTIF_SIZES: list(sizes)})
     else:
         # empirical carrier: weights are multiplicities
         jds = []
@@ -166,6 +186,8 @@ def run_case(case):
         if step > 0:
             # ---- the distribution / configuration is changed through the public interface between two samplings
             how = rng.choice(["jdd-setter", "in-place", "in-place-weights", "sizes-setter", "recreate", "inadmissible-sizes"] + (["empirical-setter"] * 2 if carrier == "empirical" else []))
+            if how.startswith("in-place") and carrier == "manual" and mform == "MappingProxyType":
+                how = "jdd-setter"        # a read-only mapping cannot be edited in place
             history.append(how)
             res.count("history_updates")
             res.seen("update_kinds", how)
@@ -173,7 +195,7 @@ def run_case(case):
                 T2, keys, w, _ = make_dist(rng)
                 while T2 != T:
                     T2, keys, w, _ = make_dist(rng)
-                L.jdd = dict(zip(keys, w))
+                L.jdd = as_mapping(dict(zip(keys, w))) if carrier == "manual" else dict(zip(keys, w))
             elif how == "in-place":
                 d = L.jdd
                 model = dict(zip(keys, w))
